@@ -30,7 +30,7 @@ m = {
     "setup_cmd": "./verif.sh setup",
     "hooks": {
         "guard": "verif (Go build tag)",
-        "enable": "go1.26.8 test -c -tags verif -overlay /verif/.build/overlay.json : shim files under /verif/sim/shims are ADDED to /repo packages through the overlay (tag verif); no file in /repo is modified",
+        "enable": "go1.26.8 test -c -tags verif -overlay /verif/.build/overlay.<world>.json : shim files under /verif/sim/shims are ADDED to /repo packages through the overlay (tag verif); no file in /repo is modified",
         "baseline_off_cmd": "cd /repo && for m in . ./devnet; do (cd $m && GOFLAGS=-mod=mod go test -json -vet=off -count=1 -timeout 25m ./...); done",
         "source_commits": hooks_commits,
         "add_only": True,
